@@ -112,6 +112,18 @@ func exprStep(step string, c []string) []string {
 		return cat(w("COALESCE ("), valueOf(c), w(", 1 , 2 ) = 1"))
 	case "in-list-first":
 		return cat(w("b IN ("), valueOf(c), w(", 1 , 2 )"))
+	case "long-chain-leftmost":
+		out := cat(w("("), c)
+		for i := 0; i < 300; i++ {
+			out = append(out, "AND", "b", "<>", fmt.Sprint(i))
+		}
+		return append(out, ")")
+	case "after-long-chain":
+		out := w("( ( b = 0")
+		for i := 1; i < 300; i++ {
+			out = append(out, "OR", "b", "=", fmt.Sprint(i))
+		}
+		return cat(out, w(") AND"), c, w(")"))
 	}
 	core.Fatalf("unknown expression step %s", step)
 	return nil
